@@ -96,7 +96,7 @@ def query(prog, pkg, names):
     out = {}
     for mod, name in names:
         try:
-            out[name] = getattr(sys.modules["%s.%s" % (pkg, mod)], name).version()
+            out[name] = getattr(sys.modules[progs.modname({"pkg": pkg}, mod)], name).version()
         except Exception as e:
             import traceback
 
@@ -110,47 +110,18 @@ class CellLog:
     def __init__(self):
         self.cells = []
 
-    def exec(self, src, module, defines=None):
+    def exec(self, src, module, defines=None, mod=None):
         n = len(self.cells) + 1
         name = "<vf13-cell-%d>" % n
         linecache.cache[name] = (len(src), None, src.splitlines(True), name)
         exec(compile(src, name, "exec"), module.__dict__)
-        self.cells.append({"n": n, "src": src, "mod": module.__name__.rsplit(".", 1)[1], "defines": defines})
+        self.cells.append({"n": n, "src": src, "mod": mod, "defines": defines})
 
 
 def deliver(log, old, new, desc, pkg):
-    """C01's cell-style delivery, recorded cell by cell."""
-    mods = {m: sys.modules["%s.%s" % (pkg, m)] for m in ("a", "b")}
-    hdr = progs.header(new, "b", False)
-    old_hdr = progs.header(old, "b", False)
-    for line in hdr.split("\n"):
-        if line.startswith("from ") and ".a import" in line and line not in old_hdr:
-            had = {x.strip() for l in old_hdr.split("\n") if l.startswith("from ") and ".a import" in l
-                   for x in l.split(" import ")[1].split(",")}
-            for n in [x.strip() for x in line.split(" import ")[1].split(",") if x.strip() not in had]:
-                log.exec("%s import %s\n" % (line.split(" import ")[0], n), mods["b"], defines="import " + n)
-    for i in desc.get("changed_defs", []):
-        log.exec(progs.render_def(new, i), mods[new["nodes"][i]["mod"]], defines=new["nodes"][i]["name"])
-    redefined = {new["nodes"][i]["name"] for i in desc.get("changed_defs", []) if new["nodes"][i]["mod"] == "a"}
-    for line in hdr.split("\n"):
-        if line.startswith("from ") and ".a import" in line:
-            names = [n.strip() for n in line.split(" import ")[1].split(",")]
-            again = [n for n in names if n in redefined]
-            for n in again:
-                log.exec("%s import %s\n" % (line.split(" import ")[0], n), mods["b"], defines="import " + n)
-    ridx = set(desc.get("changed_defs", []))
-    for al in new["aliases"]:
-        o = next((x for x in old["aliases"] if x["name"] == al["name"] and x["mod"] == al["mod"]), None)
-        if o is None or o["target"] != al["target"] or al["target"] in ridx:
-            log.exec("%s = %s\n" % (al["name"], new["nodes"][al["target"]]["name"]), mods[al["mod"]], defines=al["name"])
-    if desc.get("var") is not None:
-        v = new["vars"][desc["var"]]
-        if desc["kind"] == "var_mutate":
-            src = ("%s.append(%r)\n" % (v["name"], v["value"][-1])) if v["type"] == "list" else (
-                "%s[\"k\"] = %r\n" % (v["name"], v["value"]["k"]))
-        else:
-            src = "%s = %s\n" % (v["name"], progs.var_literal(v))
-        log.exec(src, mods[v["mod"]])
+    """C01's cell-style delivery (progs.cell_statements), recorded cell by cell."""
+    for mod, src, defines in progs.cell_statements(old, new, desc):
+        log.exec(src, sys.modules[progs.modname(new, mod)], defines=defines, mod=mod)
 
 
 def oracle_child(arg):
@@ -171,7 +142,7 @@ def oracle_child(arg):
     def run(c):
         name = "<vf13-cell-%d>" % c["n"]
         linecache.cache[name] = (len(c["src"]), None, c["src"].splitlines(True), name)
-        exec(compile(c["src"], name, "exec"), sys.modules["%s.%s" % (pkg, c["mod"])].__dict__)
+        exec(compile(c["src"], name, "exec"), sys.modules[progs.modname(prog0, c["mod"])].__dict__)
 
     # definitions first (module-file order), then the statements that copy them (imports, aliases) and
     # the variable statements in their original order; a statement that names a function whose import
@@ -222,7 +193,7 @@ def inproc_child(arg):
                 extra["subset"] = query(prog, pkg, sub)
             elif names:
                 mod, name = r.choice(names)
-                fn = getattr(sys.modules["%s.%s" % (pkg, mod)], name)
+                fn = getattr(sys.modules[progs.modname(prog, mod)], name)
                 try:
                     if kind == "clone":
                         how = r.choice(["partial", "ignore_result", "with_context_args", "force_local", "chain"])
